@@ -3,6 +3,7 @@ package main
 
 import (
 	"bytes"
+	"context"
 	"encoding/json"
 	"fmt"
 	"go/parser"
@@ -13,21 +14,29 @@ import (
 	"path/filepath"
 	"regexp"
 	"sort"
+	"strconv"
 	"strings"
 	"time"
 
 	"github.com/cloudwego/hertz/cmd/hz/generator"
 	"github.com/cloudwego/hertz/cmd/hz/meta"
 	"github.com/cloudwego/hertz/cmd/hz/util/logs"
+	"github.com/cloudwego/hertz/pkg/app"
+	"github.com/cloudwego/hertz/pkg/common/config"
+	"github.com/cloudwego/hertz/pkg/route"
 
 	"verif/harness/lib/mon"
 )
 
 func main() {
 	logs.SetLevel(logs.LevelError)
+	if len(os.Args) >= 6 && os.Args[1] == "gen" {
+		genChild()
+		return
+	}
 	mon.Main(&mon.Spec{
 		ID: "C16",
-		Rule: "each case = a batch of route sets (verb, path, handler name; path segments incl. :param, *catch-all, shared prefixes, 'a-b' vs 'a_b', repeated names, root, trailing slash, verb Any, a route that is both leaf and prefix in both declaration orders) fed in-process to hz's HttpPackageGenerator with seeded options (sort-router, snake-style middleware, handler-by-method); the generated router/middleware/register files are parsed, middleware.go is rewritten so that every generated middleware function records its own name, the batch is compiled once against /repo and run; Engine.Routes() and a traced probe of every route are compared with the declaration; " +
+		Rule: "each case = a batch of route sets (verb, path, handler name; path segments incl. :param, *catch-all, shared prefixes, 'a-b' vs 'a_b', repeated names, root, trailing slash, verb Any, a route that is both leaf and prefix in both declaration orders) fed to hz's HttpPackageGenerator with seeded options (sort-router, snake-style middleware, handler-by-method) — every generator run in a process of its own started inside the project directory, as the hz command runs, and for a third of the sets twice: first over a prefix of the declarations, then over all of them on top of the files of the first run (the update flow: router file rewritten, middleware.go/register.go extended); the generated router/middleware/register files are parsed, middleware.go is rewritten so that every generated middleware function records its own name, the batch is compiled once against /repo and run; Engine.Routes() and a traced probe of every route are compared with the declaration; " +
 			"distinct = hash of (options, sorted declarations); non-trivial = set has at least 3 routes sharing a prefix",
 		Assumptions: []string{
 			"middleware clause judged on traces only: first the root middleware, then exactly one group middleware per proper path-prefix level in path order, then the route's own middleware, then the declared handler; a group middleware seen at level i for one route may be seen for another only if both share their first i segments",
@@ -56,14 +65,20 @@ func main() {
 
 type decl struct{ Verb, Path, Name string }
 
-type opts struct{ Sort, Snake, ByMethod bool }
+type opts struct {
+	Sort, Snake, ByMethod bool
+	// Update > 0: the generator first runs over the first Update declarations only and then
+	// again, over the files of that run, with all of them (the `hz update` flow: the router
+	// file is rewritten, middleware.go and register.go are extended in place)
+	Update int
+}
 
 type rset struct {
 	Decls []decl
 	Opt   opts
 }
 
-var segs = []string{"a", "b", "ab", "a-b", "a_b", "A", "v1", ":id", ":name", "user", "users", "x.y", "a-b", "a_b"}
+var segs = []string{"a", "b", "ab", "a-b", "a_b", "A", "v1", ":id", ":name", "user", "users", "x.y", "a-b", "a_b", "id", "user_id", "user-id"}
 var verbs = []string{"GET", "POST", "PUT", "DELETE", "PATCH", "HEAD", "OPTIONS", "Any"}
 
 func genSet(r *mon.Rand) rset {
@@ -108,6 +123,31 @@ func genSet(r *mon.Rand) rset {
 		}
 		s.Decls = append(s.Decls, decl{v, p, name})
 	}
+	if n >= 2 && r.Chance(3) {
+		s.Opt.Update = 1 + r.Intn(n-1)
+	}
+	if r.Chance(6) {
+		// update flow around names of which one is the tail of the other after mangling:
+		// the first run has a group for the long one, the second adds a group for the short one
+		pair := [][2]string{{"a_b", "b"}, {"a-b", "b"}, {"user_id", "id"}, {"user-id", "id"}, {"user_id", ":id"}, {"x.y", "y"}, {"a_b", "B"}}[r.Intn(7)]
+		first := []decl{{r.Str("GET", "POST"), "/" + pair[0] + "/" + segs[r.Intn(len(segs))], "P0"}}
+		second := []decl{{r.Str("GET", "PUT"), "/" + pair[1] + "/" + segs[r.Intn(len(segs))], "P1"}}
+		if r.Bool() { // nested one level down
+			first[0].Path = "/v1" + first[0].Path
+			second[0].Path = "/v1" + second[0].Path
+		}
+		s.Decls = append(first, second...)
+		for k := r.Intn(3); k > 0; k-- {
+			s.Decls = append(s.Decls, decl{"DELETE", fmt.Sprintf("/extra%d/%s", k, segs[r.Intn(len(segs))]), fmt.Sprintf("E%d", k)})
+		}
+		s.Opt.Update = 1
+	}
+	if s.Opt.Update > 0 {
+		// snake-style middleware is not generated in the update flow: the option makes the
+		// updater look for <name>_mw while hz's own templates declare <name>Mw, i.e. it only
+		// makes sense with caller-supplied templates (no hz command line flag sets it)
+		s.Opt.Snake = false
+	}
 	return s
 }
 
@@ -137,21 +177,21 @@ var mwFuncRe = regexp.MustCompile(`func (\w+)\(\) \[\]app\.HandlerFunc \{\n\t// 
 
 // generate runs hz's generator for one set into dir/s<k>; returns an error text if the
 // generator itself refused the input.
-func generate(dir string, k int, s rset) (genErr string, parseErr string) {
-	out := filepath.Join(dir, fmt.Sprintf("s%d", k))
+// genOnce runs the generator over decls into out (on top of whatever an earlier run left there).
+func genOnce(out string, k int, decls []decl, o opts) (genErr string, parseErr string) {
 	g := &generator.HttpPackageGenerator{
 		CmdType:              meta.CmdNew,
 		ProjPackage:          fmt.Sprintf("example.com/p/s%d", k),
 		HandlerDir:           "biz/handler",
 		RouterDir:            "biz/router",
 		ModelDir:             "biz/model",
-		SortRouter:           s.Opt.Sort,
-		SnakeStyleMiddleware: s.Opt.Snake,
-		HandlerByMethod:      s.Opt.ByMethod,
+		SortRouter:           o.Sort,
+		SnakeStyleMiddleware: o.Snake,
+		HandlerByMethod:      o.ByMethod,
 		TemplateGenerator:    generator.TemplateGenerator{OutputDir: out},
 	}
 	svc := &generator.Service{Name: "Svc"}
-	for _, d := range s.Decls {
+	for _, d := range decls {
 		svc.Methods = append(svc.Methods, &generator.HttpMethod{Name: d.Name, HTTPMethod: d.Verb, Path: d.Path, Serializer: "JSON", RequestTypeName: "api.Req", ReturnTypeName: "api.Resp"})
 	}
 	pkg := &generator.HttpPackage{IdlName: "api.thrift", Package: "api", Services: []*generator.Service{svc}}
@@ -175,6 +215,65 @@ func generate(dir string, k int, s rset) (genErr string, parseErr string) {
 		if err := writeFile(out, f.Path, f.Content); err != nil {
 			return "", "cannot write: " + err.Error()
 		}
+	}
+	return "", ""
+}
+
+// genChild is one generator process: `c16 gen <project dir> <k> <spec file> <number of declarations>`.
+// hz keeps process-wide tables of the names it has handed out and looks for the files of an
+// earlier run relative to the working directory, so a faithful run is a fresh process
+// started inside the project directory.
+func genChild() {
+	out, specFile := os.Args[2], os.Args[4]
+	k, _ := strconv.Atoi(os.Args[3])
+	n, _ := strconv.Atoi(os.Args[5])
+	var s rset
+	b, err := os.ReadFile(specFile)
+	if err == nil {
+		err = json.Unmarshal(b, &s)
+	}
+	if err == nil {
+		err = os.MkdirAll(out, 0o755)
+	}
+	if err == nil {
+		err = os.Chdir(out)
+	}
+	res := map[string]string{}
+	if err != nil {
+		res["child"] = err.Error()
+	} else {
+		res["gen"], res["parse"] = genOnce(".", k, s.Decls[:n], s.Opt)
+	}
+	json.NewEncoder(os.Stdout).Encode(res)
+}
+
+func genProc(out string, k int, specFile string, n int) (genErr, parseErr string) {
+	cmd := exec.Command(os.Args[0], "gen", out, strconv.Itoa(k), specFile, strconv.Itoa(n))
+	var stdout, stderr bytes.Buffer
+	cmd.Stdout, cmd.Stderr = &stdout, &stderr
+	err := cmd.Run()
+	var res map[string]string
+	if jerr := json.Unmarshal(stdout.Bytes(), &res); jerr != nil || res["child"] != "" {
+		return "", fmt.Sprintf("generator process failed: %v %s %s %s", err, res["child"], tail(stdout.String(), 300), tail(stderr.String(), 600))
+	}
+	return res["gen"], res["parse"]
+}
+
+func generate(dir string, k int, s rset) (genErr string, parseErr string) {
+	out := filepath.Join(dir, fmt.Sprintf("s%d", k))
+	specFile := filepath.Join(dir, fmt.Sprintf("spec%d.json", k))
+	sb, _ := json.Marshal(s)
+	os.WriteFile(specFile, sb, 0o644)
+	if s.Opt.Update > 0 {
+		if ge, pe := genProc(out, k, specFile, s.Opt.Update); ge != "" || pe != "" {
+			if pe != "" {
+				pe = "first run (" + fmt.Sprint(s.Opt.Update) + " declarations): " + pe
+			}
+			return ge, pe
+		}
+	}
+	if ge, pe := genProc(out, k, specFile, len(s.Decls)); ge != "" || pe != "" {
+		return ge, pe
 	}
 	// stub handlers: in the package(s) the generated router imports
 	api, err := os.ReadFile(filepath.Join(out, "biz/router/api/api.go"))
@@ -290,6 +389,71 @@ func allVerbs() []string {
 	return []string{"GET", "POST", "PUT", "DELETE", "PATCH", "HEAD", "OPTIONS", "CONNECT", "TRACE"}
 }
 
+// directlyRegistrable registers the declared (verb, path) pairs on a fresh engine, in
+// declaration order and in sorted order; it returns the panic text if hertz refuses.
+func directlyRegistrable(s rset) (msg string) {
+	orders := [][]decl{append([]decl{}, s.Decls...), append([]decl{}, s.Decls...)}
+	sort.Slice(orders[1], func(i, j int) bool { return orders[1][i].Path < orders[1][j].Path })
+	for _, ds := range orders {
+		func() {
+			defer func() {
+				if r := recover(); r != nil {
+					msg = fmt.Sprint(r)
+				}
+			}()
+			e := route.NewEngine(config.NewOptions(nil))
+			h := func(c context.Context, ctx *app.RequestContext) {}
+			for _, d := range ds {
+				if d.Verb == "Any" {
+					e.Any(d.Path, h)
+				} else {
+					e.Handle(d.Verb, d.Path, h)
+				}
+			}
+		}()
+		if msg != "" {
+			return msg
+		}
+	}
+	return ""
+}
+
+func probePath(p string) string {
+	var segs []string
+	for _, s := range strings.Split(p, "/") {
+		if strings.HasPrefix(s, ":") {
+			s = "pv"
+		} else if strings.HasPrefix(s, "*") {
+			s = "tail/x"
+		}
+		segs = append(segs, s)
+	}
+	return strings.Join(segs, "/")
+}
+
+// patternFits: could the route pattern match the concrete path?
+func patternFits(pattern, path string) bool {
+	ps, cs := strings.Split(pattern, "/"), strings.Split(path, "/")
+	for i, p := range ps {
+		if strings.HasPrefix(p, "*") {
+			return i < len(cs)
+		}
+		if i >= len(cs) {
+			return false
+		}
+		if strings.HasPrefix(p, ":") {
+			if cs[i] == "" {
+				return false
+			}
+			continue
+		}
+		if p != cs[i] {
+			return false
+		}
+	}
+	return len(ps) == len(cs)
+}
+
 func judge(c *mon.Case, w *mon.W, s rset, so *setOut) {
 	descr := func() string {
 		var ds []string
@@ -300,7 +464,13 @@ func judge(c *mon.Case, w *mon.W, s rset, so *setOut) {
 	}
 	c.Detail = func() interface{} { return map[string]interface{}{"options": s.Opt, "declarations": s.Decls} }
 	if so.Panic != "" {
-		c.Violate("register-panic", "registering the generated router panics: %s; %s", so.Panic, descr())
+		// the declared set itself may be one hertz refuses (two parameter names at the same
+		// position, ...): then the panic is not the generator's doing
+		if msg := directlyRegistrable(s); msg != "" {
+			w.Count("declared_sets_hertz_itself_refuses", 1)
+			return
+		}
+		c.Violate("register-panic", "registering the generated router panics although the declared routes register fine by hand: %s; %s", so.Panic, descr())
 		return
 	}
 	want := map[string]string{} // "VERB path" -> handler name
@@ -338,6 +508,19 @@ func judge(c *mon.Case, w *mon.W, s rset, so *setOut) {
 	var root string
 	for k, r := range got {
 		name := want[k]
+		// the probe path of a route (pv for parameters, tail/x for a catch-all) may also fit
+		// another declared pattern of the same method, which the router may rightly prefer
+		// (/:a/:b/:c over /:n/*rest): such probes say nothing about the generator
+		ambiguous := false
+		for k2 := range want {
+			if k2 != k && strings.HasPrefix(k2, r.Method+" ") && patternFits(strings.TrimPrefix(k2, r.Method+" "), probePath(r.Path)) {
+				ambiguous = true
+			}
+		}
+		if ambiguous {
+			w.Count("routes_with_ambiguous_probe_not_judged", 1)
+			continue
+		}
 		w.Count("routes_probed", 1)
 		if r.Status != 200 {
 			c.Violate("probe-status", "probing %q answers %d; %s", k, r.Status, descr())
@@ -384,6 +567,9 @@ func judge(c *mon.Case, w *mon.W, s rset, so *setOut) {
 		}
 	}
 	w.Count("route_sets_compiled_and_run", 1)
+	if s.Opt.Update > 0 {
+		w.Count("route_sets_generated_in_two_runs_update_flow", 1)
+	}
 }
 
 func keys(m map[string]routeOut) []string {
@@ -397,7 +583,7 @@ func keys(m map[string]routeOut) []string {
 
 func work(w *mon.W) {
 	batch := w.Pick(20, 40)
-	w.Cases("batch", uint64(w.Pick(8, 96)), func(c *mon.Case) {
+	w.Cases("batch", uint64(w.Pick(16, 128)), func(c *mon.Case) {
 		dir, err := os.MkdirTemp("", "verif-c16-")
 		if err != nil {
 			w.Note("mkdtemp: " + err.Error())
